@@ -10,6 +10,10 @@ structure DS where
   q : List (Option Tx) := []   -- queued txs of the open block (reversed); `none` = a tx the model ignores (fund)
   acc : Int := 0
   known : List Nat := []
+  pendingW : List Nat := []   -- numbers of the v1 withdrawals waiting for their real payment
+  newW : List Nat := []       -- v1 withdrawals accepted in the open block
+  nextW : Nat := 0
+  qRW : List (List Nat) := [] -- accepted real-withdraw lists of the open block
   closes : List (Nat × Nat) := []   -- CloseProposal proposals: (id, target id)
   chg : Bool := false               -- a committee change recomputes the used amount at the end of this block
 
@@ -30,7 +34,8 @@ def stageList (bs : List BEntry) (f : BEntry → Bool) : String :=
 def dump (d : DS) : String :=
   let ps := (sortK d.s.props).foldl (fun acc (p : Nat × Prop') =>
     acc ++ s!" {p.1}:{stCode p.2.status}:{stageList p.2.budgets (·.w)}:{stageList p.2.budgets (·.wn)}:{p.2.paid}") ""
-  s!"h={d.h} C {d.s.stage}:{d.s.used} P{ps}"
+  let w := (sortK (d.pendingW.map (fun i => (i, ())))).foldl (fun acc p => acc ++ s!" {p.1}") ""
+  s!"h={d.h} C {d.s.stage}:{d.s.used} P{ps} W{w}"
 
 def budget? (s : String) : Option BEntry :=
   match s.splitOn ":" with
@@ -58,7 +63,8 @@ def endOf (d : DS) (q : List Tx) : DS × String :=
   let closing := d.closes.filter (fun ct => stOf s1 ct.1 == some .crAgreed && stOf s2 ct.1 == some .voterAgreed)
   let s3 := closePhase s2 (sortK closing)
   let s4 := if d.chg then { s3 with used := resetUsed s3 } else s3
-  let d' := { d with s := s4, q := [], acc := 0, chg := false }
+  let pend := applyRealWd d.pendingW (d.qRW.foldl (· ++ ·) []) ++ d.newW.reverse
+  let d' := { d with s := s4, q := [], acc := 0, chg := false, pendingW := pend, newW := [], qRW := [] }
   (d', dump d')
 
 def stepC29 (d : DS) (toks : List String) : DS × String :=
@@ -86,9 +92,18 @@ def stepC29 (d : DS) (toks : List String) : DS × String :=
          if t.status ≠ .voterAgreed then (d, "reject status") else
          ({ d with q := some (.propose id []) :: d.q, known := id :: d.known, closes := (id, tg) :: d.closes }, "accept"))
     | _, _ => (d, "bad-op")
+  | ["realwd", idxs, _, _] =>
+    match (idxs.splitOn ",").foldr (fun x acc => match nat? x, acc with
+        | some i, some l => some (i :: l)
+        | _, _ => none) (some []) with
+    | some l =>
+      (match checkRealWd d.pendingW [] l with
+       | some e => (d, "reject " ++ e)
+       | none => ({ d with q := none :: d.q, qRW := l :: d.qRW }, "accept"))
+    | none => (d, "bad-op")
   | ["fund", _] => ({ d with q := none :: d.q }, "queued")
   | ["begin", h] => match nat? h with
-    | some h => ({ d with h := h, q := [], acc := 0 }, "ok")
+    | some h => ({ d with h := h, q := [], acc := 0, newW := [], qRW := [] }, "ok")
     | none => (d, "bad-op")
   | ["end"] => endOf d (d.q.reverse.filterMap id)
   | ["end", perm] =>
@@ -137,7 +152,7 @@ def stepC29 (d : DS) (toks : List String) : DS × String :=
     | some id, some a =>
       match check d.P d.s d.acc (.withdraw id a) with
       | some e => (d, "reject " ++ e)
-      | none => ({ d with q := some (.withdraw id a) :: d.q }, "accept")
+      | none => ({ d with q := some (.withdraw id a) :: d.q, newW := d.nextW :: d.newW, nextW := d.nextW + 1 }, "accept")
     | _, _ => (d, "bad-op")
   | ["withdraw0", id, inp, out0, out1, toC, _] =>
     match nat? id, int? inp, int? out0 with
